@@ -828,7 +828,15 @@ async fn boundary_case(env: &Env, col: &Collector, idx: u64, rng: &mut Rng) {
         let class = class_of(&min, su.block_size, env.max_iop, file_len);
         // wrong bytes can be manufactured by LanceEncodingsIo's reassembly from a short reply of the
         // file scheduler, so that symptom keeps the path in its name; the others do not
-        let signature = if matches!(sym, Symptom::WrongBytes(_)) && matches!(via, Via::Enc(..)) {
+        let sorted_list_rejected_via_chunking = matches!(via, Via::Enc(..))
+            && !nonempty_out_of_order(&min)
+            && matches!(&min_sym, Symptom::Error(m) if m.contains("must be sorted by start offset"));
+        let signature = if sorted_list_rejected_via_chunking {
+            // LanceEncodingsIo cuts every range into read_chunk_size pieces; the pieces of an
+            // overlapping later range start before the last piece of the earlier one, and the file
+            // scheduler now rejects that list
+            "sorted-overlapping-list-rejected-after-encodings-io-chunking".to_string()
+        } else if matches!(sym, Symptom::WrongBytes(_)) && matches!(via, Via::Enc(..)) {
             format!("wrong-bytes-via-encodings-io-{class}")
         } else {
             format!("{}-{}", sym.name(), class)
